@@ -200,6 +200,32 @@ def x_syllable():
     if set(barms) != {"Initial", "Medial", "Rime", "Tone"}:
         raise ExtractError("SyllableBuilder::insert: arms missing")
 
+    # try_from(u16): zero rejected, the empty pattern accepted, otherwise the marker bit must be clear and every
+    # component index at most `Bopomofo::<X>.index()`; the pre-fix shape (only zero rejected) is still understood, so
+    # that a revert is reported by the oracle with a concrete code and not as a translator failure
+    tb = re.sub(r"\s+", "", fn_body(src, "try_from", after=r"impl\s+TryFrom<u16>\s+for\s+Syllable"))
+    nz = r"NonZeroU16::try_from\(value\)\.map_err\(\|_\|DecodeSyllableError\)\?"
+    bounds = []
+    if re.match(r"Ok\(Syllable\{value:" + nz + r",\}\)$", tb):
+        try_marker = 0
+    else:
+        m = re.match(r"letsyl=Syllable\{value:" + nz + r",\};ifsyl\.is_empty\(\)\{returnOk\(syl\);\}"
+                     r"((?:let\w+=\(?value&0b[01_]+\)?(?:>>\d+)?;)+)"
+                     r"ifvalue&Syllable::EMPTY_PATTERN!=0((?:\|\|\w+>Bopomofo::\w+\.index\(\))+)"
+                     r"\{returnErr\(DecodeSyllableError\);\}Ok\(syl\)$", tb)
+        if not m:
+            raise ExtractError("TryFrom<u16> for Syllable: unexpected body shape")
+        try_marker = empty
+        fields = {n: (rust_int(mk), int(sh or 0)) for n, mk, sh in
+                  re.findall(r"let(\w+)=\(?value&(0b[01_]+)\)?(?:>>(\d+))?;", m.group(1))}
+        variants = enum_variants(strip_comments(read("src/zhuyin/bopomofo.rs")), "Bopomofo")
+        for n, sym in re.findall(r"\|\|(\w+)>Bopomofo::(\w+)\.index\(\)", m.group(2)):
+            if n not in fields or sym not in variants:
+                raise ExtractError(f"TryFrom<u16> for Syllable: unknown field {n} / symbol {sym}")
+            bounds.append((fields[n][0], fields[n][1], variants.index(sym)))
+        if len(bounds) != len(fields):
+            raise ExtractError("TryFrom<u16> for Syllable: a decoded field is not bounded")
+
     L = [HEADER.format(src="src/zhuyin/syllable.rs", h=sha(raw)), "namespace Chewing.Gen\n"]
     for k, v in out.items():
         L.append(f"def {k} : Nat := {v}")
@@ -215,6 +241,10 @@ def x_syllable():
         a = barms[k]
         rows.append(f"({a['check']}, {a['maxStep']}, {a['newStep']}, {a['clear']}, ({a['off']} : Int), {a['shift']})")
     L.append(f"def builderArms : List (Nat × Nat × Nat × Nat × Int × Nat) := {lean_list(rows, 1)}")
+    L.append("\n/-- `TryFrom<u16> for Syllable`: the bit that only the empty pattern may carry (0 = no range check at all,\n"
+             "    the shape before the repair), and per bounded field (mask, shift, symbol whose `index()` is the largest value). -/")
+    L.append(f"def tryFromMarker : Nat := {try_marker}")
+    L.append(f"def tryFromBounds : List (Nat × Nat × Nat) := {lean_list([f'({a}, {b}, {c})' for a, b, c in bounds])}")
     L.append("\nend Chewing.Gen\n")
     return {"SyllableBits.lean": "\n".join(L)}
 
